@@ -111,6 +111,11 @@ class Reach:
         if isinstance(fn, property):
             fn = fn.fget
         fn = getattr(fn, '__func__', fn)
+        fn = getattr(fn, 'func', fn)               # functools.cached_property / partial
+        for _ in range(4):                         # decorators that keep the original under __wrapped__
+            if hasattr(fn, '__code__') or not hasattr(fn, '__wrapped__'):
+                break
+            fn = fn.__wrapped__
         fn = getattr(fn, '__vmon_original__', fn)
         code = fn.__code__
         label = label or '%s:%s' % (fn.__module__, fn.__qualname__)
